@@ -27,6 +27,12 @@ Definition proj (r : res (term * option N * N)) : uobs :=
    resolution against the documents, sender id build + split) instead of being handed the resolved keys *)
 Record case := { c_cfg : cfg; c_viapk : bool; c_spar : list N; c_payload : N; c_sender : N; c_rcpts : list N;
                  c_refs : option (directory * ref * list ref);
+                 (* transport form handed to packager.UnpackMessage (0: the envelope, 1: "<base64url>", 2: padded) and
+                    whether the scenario ran through long-lived instances that had seen EARLIER versions of the DID
+                    documents: the model's unpack is a function of the envelope and the CURRENT directory only, so
+                    both are recorded but do not enter the prediction — the implementation must agree in every
+                    form and after every history *)
+                 c_form : N; c_history : bool;
                  c_packed : bool; c_unp : list (list N * uobs) }.
 
 (* randomness names outside the harness's key names (ephemeral keys are key names too) *)
